@@ -419,8 +419,8 @@ type RouteScript struct {
 	Form   string `json:"form"` // manifests | blobs | tags | referrers | uploads | mount
 	Method string `json:"method"`
 	Repo   string `json:"repo"`
-	Ref    string `json:"ref"`  // tag or digest (no '/')
-	From   string `json:"from"` // mount only
+	Ref    string `json:"ref"`           // tag or digest (no '/')
+	From   string `json:"from"`          // mount only
 	Enc    []int  `json:"enc,omitempty"` // positions of path bytes sent percent-encoded although they need not be
 }
 
@@ -501,9 +501,17 @@ func runRoute(sc RouteScript, v *vt.V) {
 	case "mount":
 		u.Path = "/v2/" + sc.Repo + "/blobs/uploads/"
 		u.RawQuery = url.Values{"mount": {sc.Ref}, "from": {sc.From}}.Encode()
-		// an empty mount or from parameter means "plain upload" in the protocol: keep the oracle to the mount form
-		if sc.Ref == "" || sc.From == "" {
+		// an empty mount parameter means "plain upload" in the protocol: keep the oracle to the mount form
+		if sc.Ref == "" {
 			return
+		}
+		if sc.From == "" {
+			// a mount digest without a source: the protocol falls back to a plain upload - of a
+			// request whose digest is a digest (the URL carries it, the router judges it)
+			u.RawQuery = url.Values{"mount": {sc.Ref}}.Encode()
+			reach = vr && ociref.IsValidDigest(sc.Ref)
+			wantMethod, want = "PushBlobChunked", rec.Call{Repo: sc.Repo}
+			break
 		}
 		reach = vr && ociref.IsValidDigest(sc.Ref) && ociref.IsValidRepository(sc.From)
 		wantMethod, want = "MountBlob", rec.Call{Repo: sc.Repo, FromRepo: sc.From, Digest: sc.Ref}
@@ -612,6 +620,9 @@ func genRoute(t *rapid.T) RouteScript {
 			sc.Ref = noSlash(gen.HostileDigest().Draw(t, "ref"))
 		}
 		sc.From = repo("from")
+		if rapid.IntRange(0, 3).Draw(t, "noFrom") == 0 {
+			sc.From = ""
+		}
 	}
 	if rapid.IntRange(0, 2).Draw(t, "encoded") == 0 {
 		sc.Enc = rapid.SliceOfN(rapid.IntRange(0, 400), 1, 4).Draw(t, "enc")
@@ -622,7 +633,7 @@ func genRoute(t *rapid.T) RouteScript {
 var propRoute = &vt.Prop[RouteScript]{
 	ID:   "C17",
 	Name: "RouterAgreesWithPredicates",
-	Rule: "requests GET/HEAD/DELETE /v2/<r>/manifests/<ref>, /blobs/<ref>, GET /tags/list, /referrers/<ref>, POST /blobs/uploads/ (plain and mount form), GET/PATCH/PUT /blobs/uploads/<id> with r, from drawn from valid (routing words, lengths 254-257) and hostile repository generators (empty, dot segments, slashes, upper case, NUL, UTF-8) and ref from valid/hostile tags and digests incl. the empty string, driven through ociserver.ServeHTTP with hand-built URLs, a third of them with 1-4 path bytes percent-encoded although they need not be (the decoded path is what names the repository); oracle = backend (recorder) reached iff IsValidRepository(r) and IsValidTag/IsValidDigest(ref), and then with exactly (r, ref); non-trivial = repository valid or request reached the backend; distinct = request",
+	Rule: "requests GET/HEAD/DELETE /v2/<r>/manifests/<ref>, /blobs/<ref>, GET /tags/list, /referrers/<ref>, POST /blobs/uploads/ (plain form, mount form, mount digest without a source), GET/PATCH/PUT /blobs/uploads/<id> with r, from drawn from valid (routing words, lengths 254-257) and hostile repository generators (empty, dot segments, slashes, upper case, NUL, UTF-8) and ref from valid/hostile tags and digests incl. the empty string, driven through ociserver.ServeHTTP with hand-built URLs, a third of them with 1-4 path bytes percent-encoded although they need not be (the decoded path is what names the repository); oracle = backend (recorder) reached iff IsValidRepository(r) and IsValidTag/IsValidDigest(ref), and then with exactly (r, ref); non-trivial = repository valid or request reached the backend; distinct = request",
 	Gen:  genRoute,
 	Run:  runRoute,
 }
